@@ -246,6 +246,7 @@ pub fn run_ccase(ctx: &mut Ctx, prop: &str, w: &World, steps: &[CStep]) {
         Kind::RefNonDiscRwLock => run_generic(ctx, prop, w, tokio::sync::RwLock::new(RefStore::new(d_non_pub)), steps),
         Kind::RefForcedArcMutex => run_generic(ctx, prop, w, Arc::new(tokio::sync::Mutex::new(RefStore::new(d_forced_pub))), steps),
         Kind::RefForcedRwLock => run_generic(ctx, prop, w, tokio::sync::RwLock::new(RefStore::new(d_forced_pub)), steps),
+        Kind::RefFullEmptyOk => run_generic(ctx, prop, w, RefStore::new_empty_ok(d_full_pub), steps),
     }
 }
 
